@@ -9,6 +9,7 @@ package conf
 import (
 	"encoding/base64"
 	"fmt"
+	"net"
 	"os"
 	"path/filepath"
 	"reflect"
@@ -17,6 +18,8 @@ import (
 	"strings"
 	"testing"
 
+	"github.com/bluenviron/gortsplib/v5"
+	"github.com/bluenviron/gortsplib/v5/pkg/auth"
 	"golang.org/x/crypto/nacl/secretbox"
 
 	"github.com/bluenviron/mediamtx/internal/conf/decrypt"
@@ -24,53 +27,10 @@ import (
 )
 
 // ---- rendering a configuration as a Coq gconf ------------------------------------------
-
-var vC10StaticPrefixes = []string{
-	"rtsp://", "rtsps://", "rtsp+http://", "rtsps+http://", "rtsp+ws://", "rtsps+ws://", "rtmp://", "rtmps://",
-	"http://", "https://", "udp://", "udp+mpegts://", "unix+mpegts://", "udp+rtp://", "unix+rtp://", "srt://",
-	"moqt://", "whep://", "wheps://",
-}
-
-func vC10Probe(setup func(p *Path, c *Conf)) bool {
-	probe := &Path{}
-	probe.setDefaults()
-	c := &Conf{Paths: map[string]*Path{"probe": probe}}
-	setup(probe, c)
-	ok := false
-	func() {
-		defer func() { recover() }() //nolint:errcheck
-		ok = probe.validate(c, "probe", false, &nilLogger{}) == nil
-	}()
-	return ok
-}
-
-// oracle: would Path.validate accept a default path with this source (validateURL, port, rtpSDP)?
-func vC10SourceOK(p *Path) bool {
-	return vC10Probe(func(q *Path, _ *Conf) {
-		q.Source, q.SourceOnDemand, q.RTPSDP = p.Source, true, p.RTPSDP
-	})
-}
-
-// oracle: the rpiCamera parameter checks (everything but the primary/secondary pairing)
-func vC10RPIOK(p *Path) bool {
-	return vC10Probe(func(q *Path, c *Conf) {
-		src, dst := reflect.ValueOf(p).Elem(), reflect.ValueOf(q).Elem()
-		for i := 0; i < src.NumField(); i++ {
-			n := src.Type().Field(i).Name
-			if strings.HasPrefix(n, "RPICamera") && !strings.HasPrefix(n, "RPICameraSecondary") || n == "RPICameraSecondary" {
-				dst.Field(i).Set(src.Field(i))
-			}
-		}
-		q.RPICameraPrimaryName = ""
-		q.Source = "rpiCamera"
-		if q.RPICameraSecondary {
-			prim := &Path{}
-			prim.setDefaults()
-			prim.Source, prim.RPICameraCamID = "rpiCamera", q.RPICameraCamID
-			c.Paths["prim"] = prim
-		}
-	})
-}
+//
+// Every field is read from the real Conf / merged Path; oracle fields are computed by the real helper on the same
+// value (validateURL, net.SplitHostPort, IsValidPathName, regexp.Compile, checkRedirect, Forward.Validate,
+// checkAlwaysAvailableFile, rePlainCredential, reflect.DeepEqual). pre = the configuration as Validate receives it.
 
 func vC10NameOK(name string) bool {
 	switch {
@@ -84,45 +44,95 @@ func vC10NameOK(name string) bool {
 	}
 }
 
-func vC10Src(p *Path, pre bool) string {
-	switch {
-	case p.Source == "publisher":
-		return "SPublisher"
-	case p.Source == "redirect":
-		return "SRedirect"
-	case p.Source == "rpiCamera":
-		return "SRpi"
+func vC10OptStr[T ~string](p *T) string {
+	if p == nil {
+		return "None"
 	}
-	for _, pf := range vC10StaticPrefixes {
-		if strings.HasPrefix(p.Source, pf) {
-			if !pre || vC10SourceOK(p) {
-				return "(SStatic true)"
+	return "(Some " + cqBytes(string(*p)) + ")"
+}
+
+func vC10OptBool(p *bool) string {
+	if p == nil {
+		return "None"
+	}
+	return "(Some " + cqBool(*p) + ")"
+}
+
+func vC10OptZ(present bool, v int64) string {
+	if !present {
+		return "None"
+	}
+	return "(Some " + cqZ(v) + ")"
+}
+
+func vC10Strs(xs []string) string {
+	return cqListOf(xs, func(x string) string { return cqBytes(x) })
+}
+
+func vC10Transport(t RTSPTransport) int64 {
+	if t.Protocol == nil {
+		return 0
+	}
+	switch *t.Protocol {
+	case gortsplib.ProtocolUDP:
+		return 1
+	case gortsplib.ProtocolUDPMulticast:
+		return 2
+	case gortsplib.ProtocolTCP:
+		return 3
+	}
+	return 4
+}
+
+func vC10IPs(p *IPNetworks) string {
+	if p == nil {
+		return "None"
+	}
+	return "(Some " + cqZ(int64(len(*p))) + ")"
+}
+
+func vC10PextTerm(p *Path) string {
+	urlOK, hostportOK := false, false
+	if u, err := validateURL(p.Source); err == nil {
+		urlOK = true
+		_, _, err = net.SplitHostPort(u.Host)
+		hostportOK = err == nil
+	}
+	aaFileOK := p.AlwaysAvailableFile != "" && checkAlwaysAvailableFile(p.AlwaysAvailableFile) == nil
+	return cqApp("PX", cqBool(urlOK), cqBool(hostportOK), cqBool(p.RTPSDP != ""), cqZ(int64(len(p.RTSPUDPSourcePortRange))),
+		vC10OptBool(p.DisablePublisherOverride), cqBool(p.OverridePublisher),
+		vC10OptZ(p.SourceProtocol != nil, func() int64 {
+			if p.SourceProtocol == nil {
+				return 0
 			}
-			return "(SStatic false)"
-		}
-	}
-	return "SInvalid"
+			return vC10Transport(*p.SourceProtocol)
+		}()), cqZ(vC10Transport(p.RTSPTransport)),
+		vC10OptBool(p.SourceAnyPortEnable), cqBool(p.RTSPAnyPort),
+		cqU(uint64(p.RPICameraWidth)), cqU(uint64(p.RPICameraHeight)), cqBytes(p.RPICameraCodec), cqBytes(p.RPICameraExposure),
+		cqBytes(p.RPICameraAWB), cqZ(int64(len(p.RPICameraAWBGains))), cqBytes(p.RPICameraDenoise), cqBytes(p.RPICameraMetering),
+		cqBytes(p.RPICameraAfMode), cqBytes(p.RPICameraAfRange), cqBytes(p.RPICameraAfSpeed),
+		vC10OptStr(p.RPICameraProfile), vC10OptStr(p.RPICameraLevel), vC10OptStr(p.RPICameraHardwareH264Profile),
+		vC10OptStr(p.RPICameraHardwareH264Level), vC10OptStr(p.RPICameraSoftwareH264Profile), vC10OptStr(p.RPICameraSoftwareH264Level),
+		cqBytes(p.RPICameraH264Profile), cqBytes(p.RPICameraH264Level),
+		vC10OptZ(p.RPICameraJPEGQuality != nil, func() int64 {
+			if p.RPICameraJPEGQuality == nil {
+				return 0
+			}
+			return int64(*p.RPICameraJPEGQuality)
+		}()), cqU(uint64(p.RPICameraMJPEGQuality)),
+		cqBool(p.AlwaysAvailableFile != ""), cqBool(aaFileOK),
+		vC10OptStr(p.PublishUser), vC10OptStr(p.PublishPass), vC10IPs(p.PublishIPs),
+		vC10OptStr(p.ReadUser), vC10OptStr(p.ReadPass), vC10IPs(p.ReadIPs),
+		vC10OptStr(p.RunOnReady), cqBytes(p.RunOnAvailable), vC10OptBool(p.RunOnReadyRestart), cqBool(p.RunOnAvailableRestart),
+		vC10OptStr(p.RunOnNotReady), cqBytes(p.RunOnUnavailable))
 }
 
 func vC10PathTerm(name string, p *Path, pre bool) string {
-	nameOK, redirectOK, rpiOK, otherOK, aaSrcOK := true, true, true, true, true
-	if pre {
-		nameOK = vC10NameOK(name)
-		redirectOK = checkRedirect(p.SourceRedirect) == nil
-		if p.Source == "rpiCamera" {
-			rpiOK = vC10RPIOK(p)
-		}
-		otherOK = p.Forward.Validate() == nil && (p.Fallback == nil || checkRedirect(*p.Fallback) == nil)
-		if p.AlwaysAvailableFile != "" {
-			aaSrcOK = len(p.AlwaysAvailableTracks) == 0 && checkAlwaysAvailableFile(p.AlwaysAvailableFile) == nil
-		} else {
-			aaSrcOK = len(p.AlwaysAvailableTracks) != 0
-		}
-	}
-	return cqApp("P", cqBytes(name), cqBool(nameOK), cqBool(!pre && p.Regexp != nil), vC10Src(p, pre),
+	return cqApp("P", cqBytes(name), cqBool(vC10NameOK(name)), cqBool(!pre && p.Regexp != nil), cqBytes(p.Source),
 		cqBool(p.SourceOnDemand), cqZ(int64(len(p.SRTPublishPassphrase))), cqZ(int64(len(p.SRTReadPassphrase))),
-		cqBool(p.SourceRedirect != ""), cqBool(redirectOK), cqZ(int64(p.RPICameraCamID)), cqBool(p.RPICameraSecondary),
-		cqBool(rpiOK), cqBool(otherOK), cqBool(p.AlwaysAvailable), cqBool(aaSrcOK), cqBool(p.UseAbsoluteTimestamp),
+		cqBool(p.SourceRedirect != ""), cqBool(checkRedirect(p.SourceRedirect) == nil), cqZ(int64(p.RPICameraCamID)),
+		cqBool(p.RPICameraSecondary), cqBool(p.Forward.Validate() == nil),
+		cqBool(p.Fallback == nil || checkRedirect(*p.Fallback) == nil), cqBool(p.AlwaysAvailable), cqBool(p.UseAbsoluteTimestamp),
 		cqBool(p.RunOnInit != ""), cqBool(p.RunOnDemand != "" || p.RunOnUnDemand != ""),
 		cqBytes(p.RecordPath), cqZ(int64(p.RecordSegmentDuration)), cqZ(int64(p.RecordDeleteAfter)),
 		cqListOf(p.AlwaysAvailableTracks, func(t AlwaysAvailableTrack) string {
@@ -136,7 +146,135 @@ func vC10PathTerm(name string, p *Path, pre bool) string {
 				class = 2
 			}
 			return "(" + strconv.Itoa(class) + ", " + cqZ(int64(t.SampleRate)) + ", " + cqZ(int64(t.ChannelCount)) + ")"
-		}))
+		}), vC10PextTerm(p))
+}
+
+var vC10Actions = map[AuthAction]int64{AuthActionPublish: 0, AuthActionRead: 1, AuthActionPlayback: 2, AuthActionAPI: 3,
+	AuthActionMetrics: 4, AuthActionPprof: 5}
+
+func vC10UsersTerm(us []AuthInternalUser) string {
+	return cqListOf(us, func(u AuthInternalUser) string {
+		return cqApp("U", cqBytes(string(u.User)), cqBytes(string(u.Pass)), cqZ(int64(len(u.IPs))),
+			cqListOf(u.Permissions, func(pm AuthInternalUserPermission) string {
+				a, ok := vC10Actions[pm.Action]
+				if !ok {
+					a = 6
+				}
+				return cqPair(cqZ(a), cqBytes(pm.Path))
+			}))
+	})
+}
+
+func vC10Srv(addr string, origin *string, origins []string) string {
+	return cqApp("XS", cqBytes(addr), vC10OptStr(origin), vC10Strs(origins))
+}
+
+func vC10Transports(t RTSPTransports) string {
+	_, udp := t[gortsplib.ProtocolUDP]
+	_, mc := t[gortsplib.ProtocolUDPMulticast]
+	_, tcp := t[gortsplib.ProtocolTCP]
+	return "(" + cqBool(udp) + ", " + cqBool(mc) + ", " + cqBool(tcp) + ")"
+}
+
+func vC10Enc(e Encryption) int64 {
+	switch e {
+	case EncryptionNo:
+		return 0
+	case EncryptionOptional:
+		return 1
+	case EncryptionStrict:
+		return 2
+	}
+	return 3
+}
+
+func vC10AuthMethods(ms RTSPAuthMethods) string {
+	return cqListOf(ms, func(m RTSPAuthMethod) string {
+		switch m {
+		case RTSPAuthMethod(auth.VerifyMethodBasic):
+			return "0"
+		case RTSPAuthMethod(auth.VerifyMethodDigestMD5):
+			return "1"
+		}
+		return "2"
+	})
+}
+
+func vC10GextTerm(c *Conf, pre bool) string {
+	method := int64(3)
+	switch c.AuthMethod {
+	case AuthMethodInternal:
+		method = 0
+	case AuthMethodHTTP:
+		method = 1
+	case AuthMethodJWT:
+		method = 2
+	}
+	pd := &c.PathDefaults
+	pdCreds := pd.PublishUser != nil || pd.PublishPass != nil || pd.PublishIPs != nil || pd.ReadUser != nil || pd.ReadPass != nil || pd.ReadIPs != nil
+	usersCustom := pre && c.AuthInternalUsers != nil && !reflect.DeepEqual(c.AuthInternalUsers, defaultAuthInternalUsers)
+	xa := cqApp("XA", vC10OptStr(c.ExternalAuthenticationURL), cqZ(method), cqBytes(c.AuthHTTPAddress), cqBool(pdCreds),
+		cqBool(usersCustom), vC10UsersTerm(c.AuthInternalUsers), cqBytes(c.AuthJWTJWKS), cqBytes(c.AuthJWTClaimKey))
+	optT := "None"
+	if c.Protocols != nil {
+		optT = "(Some " + vC10Transports(*c.Protocols) + ")"
+	}
+	optE := "None"
+	if c.Encryption != nil {
+		optE = "(Some " + cqZ(vC10Enc(*c.Encryption)) + ")"
+	}
+	optA := "None"
+	if c.AuthMethods != nil {
+		optA = "(Some " + vC10AuthMethods(*c.AuthMethods) + ")"
+	}
+	xr := cqApp("XR", vC10OptBool(c.RTSPDisable), cqBool(c.RTSP), optT, vC10Transports(c.RTSPTransports), optE,
+		cqZ(vC10Enc(c.RTSPEncryption)), optA, vC10AuthMethods(c.RTSPAuthMethods), vC10OptStr(c.ServerCert), cqBytes(c.RTSPServerCert),
+		vC10OptStr(c.ServerKey), cqBytes(c.RTSPServerKey), cqBytes(c.RTSPAddress), cqBytes(c.RTSPSAddress), cqBytes(c.RTPAddress),
+		cqBytes(c.RTCPAddress), cqBytes(c.SRTPAddress), cqBytes(c.SRTCPAddress), cqBytes(c.MulticastIPRange),
+		cqZ(int64(c.MulticastRTPPort)), cqZ(int64(c.MulticastRTCPPort)), cqZ(int64(c.MulticastSRTPPort)), cqZ(int64(c.MulticastSRTCPPort)))
+	optStrs := func(p *[]string) string {
+		if p == nil {
+			return "None"
+		}
+		return "(Some " + vC10Strs(*p) + ")"
+	}
+	xw := cqApp("XW", vC10OptBool(c.WebRTCDisable), cqBool(c.WebRTC), vC10Srv(c.WebRTCAddress, c.WebRTCAllowOrigin, c.WebRTCAllowOrigins),
+		vC10OptStr(c.WebRTCICEUDPMuxAddress), cqBytes(c.WebRTCLocalUDPAddress), vC10OptStr(c.WebRTCICETCPMuxAddress),
+		cqBytes(c.WebRTCLocalTCPAddress), optStrs(c.WebRTCICEHostNAT1To1IPs), vC10Strs(c.WebRTCAdditionalHosts),
+		optStrs(c.WebRTCICEServers), cqListOf(c.WebRTCICEServers2, func(sv WebRTCICEServer) string {
+			return "(" + cqBytes(sv.URL) + ", " + cqBytes(sv.Username) + ", " + cqBytes(sv.Password) + ")"
+		}), cqBool(c.WebRTCIPsFromInterfaces))
+	xm := cqApp("XM", cqBool(c.MoQ), cqBytes(c.MoQQUICAddress), vC10OptStr(c.MoQHTTPS2Address), cqBytes(c.MoQHTTP2Address),
+		vC10OptStr(c.MoQHTTPS3Address), cqBytes(c.MoQHTTP3Address))
+	fmtZ := func(f RecordFormat) int64 {
+		switch f {
+		case RecordFormatFMP4:
+			return 0
+		case RecordFormatMPEGTS:
+			return 1
+		}
+		return 2
+	}
+	optDur := func(p *Duration) string {
+		if p == nil {
+			return "None"
+		}
+		return "(Some " + cqZ(int64(*p)) + ")"
+	}
+	optF := "None"
+	if c.RecordFormat != nil {
+		optF = "(Some " + cqZ(fmtZ(*c.RecordFormat)) + ")"
+	}
+	xd := cqApp("XD", vC10OptBool(c.Record), cqBool(pd.Record), vC10OptStr(c.RecordPath), cqBytes(pd.RecordPath), optF,
+		cqZ(fmtZ(pd.RecordFormat)), optDur(c.RecordPartDuration), cqZ(int64(pd.RecordPartDuration)),
+		optDur(c.RecordSegmentDuration), cqZ(int64(pd.RecordSegmentDuration)), optDur(c.RecordDeleteAfter), cqZ(int64(pd.RecordDeleteAfter)))
+	return cqApp("GX", xa, cqBool(c.API), vC10Srv(c.APIAddress, c.APIAllowOrigin, c.APIAllowOrigins),
+		cqBool(c.Metrics), vC10Srv(c.MetricsAddress, c.MetricsAllowOrigin, c.MetricsAllowOrigins),
+		cqBool(c.PPROF), vC10Srv(c.PPROFAddress, c.PPROFAllowOrigin, c.PPROFAllowOrigins),
+		vC10Srv(c.PlaybackAddress, c.PlaybackAllowOrigin, c.PlaybackAllowOrigins), xr,
+		vC10OptBool(c.RTMPDisable), cqBool(c.RTMP), cqBytes(c.RTMPAddress),
+		vC10OptBool(c.HLSDisable), cqBool(c.HLS), vC10Srv(c.HLSAddress, c.HLSAllowOrigin, c.HLSAllowOrigins),
+		cqBool(c.HLSCDNSecret != ""), cqBool(rePlainCredential.MatchString(c.HLSCDNSecret)), xw, xm, xd)
 }
 
 func vC10ConfTerm(c *Conf, paths map[string]*Path, pre bool) string {
@@ -151,7 +289,7 @@ func vC10ConfTerm(c *Conf, paths map[string]*Path, pre bool) string {
 		rbc = "(Some " + cqZ(int64(*c.ReadBufferCount)) + ")"
 	}
 	return cqApp("G", cqZ(int64(c.ReadTimeout)), cqZ(int64(c.WriteTimeout)), cqZ(int64(c.WriteQueueSize)), rbc,
-		cqZ(int64(c.UDPMaxPayloadSize)), cqBool(c.Playback), "true", cqList(ps))
+		cqZ(int64(c.UDPMaxPayloadSize)), cqBool(c.Playback), vC10GextTerm(c, pre), cqList(ps))
 }
 
 func vC10ConfDesc(c *Conf) map[string]any {
@@ -358,9 +496,15 @@ var vC10CmpNames = []string{"cam", "cam2", "a/b", "all", "all_others", "~^.*$", 
 
 func vC10CmpGen(r *vRand) *vGenConf {
 	g := &vGenConf{Top: map[string]string{}, Defaults: map[string]string{}, Paths: map[string]map[string]string{}}
+	// the first value of every list is a valid one: taken three times out of five, so that a document with several
+	// parameters still has a fair chance of being accepted (and the later checks are reached)
 	opt := func(m map[string]string, k string, den int, vals ...string) {
 		if r.Chance(1, den) {
-			m[k] = vPick(r, vals)
+			if r.Chance(3, 5) {
+				m[k] = vals[0]
+			} else {
+				m[k] = vPick(r, vals)
+			}
 		}
 	}
 	opt(g.Top, "readTimeout", 8, "10s", "0s", "-1s", "1ms", "1d")
@@ -371,6 +515,119 @@ func vC10CmpGen(r *vRand) *vGenConf {
 	opt(g.Top, "playback", 4, "yes", "no")
 	opt(g.Defaults, "recordPath", 8, "'./rec/%path/%Y-%m-%d_%H-%M-%S-%f'", "'/r/%path/%s'", "'/r/%Y'")
 	opt(g.Defaults, "recordDeleteAfter", 8, "0s", "1h", "10s")
+	// the global checks over plain fields (authentication, listeners, RTSP, WebRTC, MoQ) and the deprecated parameters:
+	// a few per document, so that most documents still reach the paths
+	for k, m := 0, r.Intn(4); k < m; k++ {
+		switch r.Intn(34) {
+		case 0:
+			opt(g.Top, "authMethod", 1, "internal", "http", "jwt", "http", "jwt")
+		case 1:
+			opt(g.Top, "authHTTPAddress", 1, "http://auth.example/x", "''", "https://auth.example/x", "ftp://auth.example", "auth.example")
+		case 2:
+			opt(g.Top, "externalAuthenticationURL", 1, "http://old.example/auth", "''", "old.example", "https://old.example/a")
+		case 3:
+			opt(g.Top, "authJWTJWKS", 1, "http://jwks.example/k", "''", "https://jwks.example/k", "file:///k")
+			opt(g.Top, "authMethod", 2, "jwt")
+		case 4:
+			opt(g.Top, "authJWTClaimKey", 1, "perms", "''")
+			opt(g.Top, "authMethod", 2, "jwt")
+		case 5:
+			opt(g.Top, "authInternalUsers", 1, "[{user: any, permissions: [{action: publish}]}]", "[{user: '', pass: x}]",
+				"[{user: any, pass: secret, permissions: [{action: read}]}]", "[{user: admin, pass: pw, ips: ['10.0.0.0/8'], permissions: [{action: api}]}]",
+				"[]", "[{user: 'sha256:j1tsRqDEw9xvq/D7/9tMx6Jh/jMhk3UfjwIB2f1zgMo=', pass: 'sha256:j1tsRqDEw9xvq/D7/9tMx6Jh/jMhk3UfjwIB2f1zgMo=', permissions: [{action: publish, path: cam}]}]",
+				"[{user: u, pass: 'argon2:$argon2id$v=19$m=4096,t=3,p=1$MTIzNDU2Nzg$Ux/LWeTgJQPyfMMJo1myR64+o8rALHoPmlE1i/TR+58'}]")
+		case 6:
+			opt(g.Top, "api", 1, "yes", "no")
+			opt(g.Top, "apiAddress", 2, "':9997'", "''")
+			opt(g.Top, "apiAllowOrigin", 3, "'https://a.example'", "'*'")
+		case 7:
+			opt(g.Top, "metrics", 1, "yes", "no")
+			opt(g.Top, "metricsAddress", 2, "':9998'", "''")
+			opt(g.Top, "metricsAllowOrigin", 3, "'https://m.example'")
+		case 8:
+			opt(g.Top, "pprof", 1, "yes", "no")
+			opt(g.Top, "pprofAddress", 2, "':9999'", "''")
+			opt(g.Top, "pprofAllowOrigin", 3, "'https://p.example'")
+		case 9:
+			opt(g.Top, "playbackAddress", 1, "':9996'", "''")
+			opt(g.Top, "playback", 2, "yes")
+			opt(g.Top, "playbackAllowOrigin", 3, "'https://pb.example'")
+		case 10:
+			opt(g.Top, "rtsp", 1, "yes", "no")
+			opt(g.Top, "rtspDisable", 3, "yes", "no")
+		case 11:
+			opt(g.Top, "rtspEncryption", 1, "'no'", "optional", "strict")
+			opt(g.Top, "encryption", 4, "'no'", "optional", "strict")
+		case 12:
+			opt(g.Top, "rtspTransports", 1, "[udp, multicast, tcp]", "[tcp]", "[udp]", "[multicast]", "[]")
+			opt(g.Top, "protocols", 4, "[tcp]", "[udp, tcp]", "[multicast]")
+		case 13:
+			opt(g.Top, vPick(r, []string{"rtspAddress", "rtspsAddress", "rtpAddress", "rtcpAddress", "srtpAddress", "srtcpAddress", "multicastIPRange"}), 1, "''")
+		case 14:
+			opt(g.Top, vPick(r, []string{"multicastRTPPort", "multicastRTCPPort", "multicastSRTPPort", "multicastSRTCPPort"}), 1, "0", "8010")
+		case 15:
+			opt(g.Top, "rtspAuthMethods", 1, "[basic]", "[]", "[basic, digest]", "[digest]")
+			opt(g.Top, "authMethods", 4, "[digest]", "[basic]", "[]")
+		case 16:
+			opt(g.Top, "serverCert", 1, "old.crt")
+			opt(g.Top, "serverKey", 2, "old.key")
+		case 17:
+			opt(g.Top, "rtmp", 1, "yes", "no")
+			opt(g.Top, "rtmpAddress", 2, "':1935'", "''")
+			opt(g.Top, "rtmpDisable", 3, "yes", "no")
+		case 18:
+			opt(g.Top, "hls", 1, "yes", "no")
+			opt(g.Top, "hlsAddress", 2, "':8888'", "''")
+			opt(g.Top, "hlsDisable", 3, "yes", "no")
+			opt(g.Top, "hlsAllowOrigin", 3, "'https://h.example'")
+		case 19:
+			opt(g.Top, "hlsCDNSecret", 1, "abcDEF123", "'with space'", "'ok!$()*+.;<=>[]^_-{}@#&'", "'a/b'", "''")
+		case 20:
+			opt(g.Top, "webrtc", 1, "yes", "no")
+			opt(g.Top, "webrtcAddress", 2, "':8889'", "''")
+			opt(g.Top, "webrtcDisable", 3, "yes", "no")
+			opt(g.Top, "webrtcAllowOrigin", 3, "'https://w.example'")
+		case 21:
+			opt(g.Top, "webrtcLocalUDPAddress", 1, "':8189'", "''")
+			opt(g.Top, "webrtcLocalTCPAddress", 2, "':8189'", "''")
+			opt(g.Top, "webrtcICEServers2", 2, "[{url: 'stun:stun.example:19302'}]", "[]")
+		case 22:
+			opt(g.Top, "webrtcICEServers2", 1, "[{url: 'stun:stun.example:19302'}]", "[{url: 'turn:t.example:3478', username: u, password: p}]",
+				"[{url: 'turns:t.example:5349'}]", "[{url: 'http://bad.example'}]", "[{url: ''}]", "[{url: 'stun:a'}, {url: 'bogus'}]")
+		case 23:
+			opt(g.Top, "webrtcICEServers", 1, "['stun:stun.example:19302']", "['turn:user:pass:host.example:3478']", "['a:b:c:d:e']",
+				"['turn:user:pass:host.example']", "['']", "[':::::']", "['stun:x', 'turns:u:p:h.example:5349']", "[]")
+		case 24:
+			opt(g.Top, "webrtcIPsFromInterfaces", 1, "yes", "no")
+			opt(g.Top, "webrtcAdditionalHosts", 2, "[host.example]", "[]")
+			opt(g.Top, "webrtcICEHostNAT1To1IPs", 3, "['192.0.2.1']", "[]")
+		case 25:
+			opt(g.Top, "webrtcICEUDPMuxAddress", 1, "':8189'", "''")
+			opt(g.Top, "webrtcICETCPMuxAddress", 2, "':8189'", "''")
+		case 26:
+			opt(g.Top, "moq", 1, "yes", "no")
+			opt(g.Top, "moqQUICAddress", 2, "':4443'", "''")
+			opt(g.Top, "moqHTTPS2Address", 3, "':4444'")
+			opt(g.Top, "moqHTTPS3Address", 3, "':4445'")
+		case 27:
+			opt(g.Top, "record", 1, "yes", "no")
+			opt(g.Top, "recordPath", 1, "'/old/%path/%Y-%m-%d_%H-%M-%S-%f'", "'/old/%Y'", "'/old/%path/%s'")
+		case 28:
+			opt(g.Top, "recordFormat", 1, "fmp4", "mpegts")
+			opt(g.Top, "recordPartDuration", 2, "2s")
+		case 29:
+			opt(g.Top, "recordSegmentDuration", 1, "30m", "2d")
+			opt(g.Top, "recordDeleteAfter", 1, "1d", "1s", "0s")
+		case 30:
+			opt(g.Defaults, vPick(r, []string{"publishUser", "publishPass", "readUser", "readPass"}), 1, "du", "''", "any", "'sha256:j1tsRqDEw9xvq/D7/9tMx6Jh/jMhk3UfjwIB2f1zgMo='")
+		case 31:
+			opt(g.Defaults, vPick(r, []string{"publishIPs", "readIPs"}), 1, "[]", "['192.0.2.0/24']", "['192.0.2.0/24', '::1/128']")
+		case 32:
+			opt(g.Top, "authJWTInHTTPQuery", 1, "yes", "no")
+		default:
+			opt(g.Defaults, vPick(r, []string{"runOnReady", "runOnNotReady"}), 1, "echo d")
+		}
+	}
 	for i, n := 0, r.Intn(5); i < n; i++ {
 		name := vPick(r, vC10CmpNames)
 		if r.Chance(2, 3) {
@@ -388,6 +645,52 @@ func vC10CmpGen(r *vRand) *vGenConf {
 			p["source"] = "rpiCamera"
 			opt(p, "rpiCameraCamID", 2, "0", "1")
 			opt(p, "rpiCameraSecondary", 2, "yes", "no")
+			for k, m := 0, r.Intn(3); k < m; k++ {
+				switch r.Intn(22) {
+				case 0:
+					opt(p, "rpiCameraWidth", 1, "640", "0", "2048", "2040", "1001", "1920")
+				case 1:
+					opt(p, "rpiCameraHeight", 1, "480", "0", "2048", "1080", "1001", "2047")
+				case 2:
+					opt(p, "rpiCameraCodec", 1, "auto", "hardwareH264", "softwareH264", "mjpeg", "vp8", "''", "mjpeg")
+				case 3:
+					opt(p, "rpiCameraExposure", 1, "normal", "short", "long", "custom", "sport", "''")
+				case 4:
+					opt(p, "rpiCameraAWB", 1, "auto", "incandescent", "tungsten", "fluorescent", "indoor", "daylight", "cloudy", "custom", "sunny")
+				case 5:
+					opt(p, "rpiCameraAWBGains", 1, "[1.5, 2.0]", "[1.0]", "[]", "[1, 2, 3]")
+				case 6:
+					opt(p, "rpiCameraDenoise", 1, "'off'", "cdn_off", "cdn_fast", "cdn_hq", "auto")
+				case 7:
+					opt(p, "rpiCameraMetering", 1, "centre", "spot", "matrix", "custom", "center")
+				case 8:
+					opt(p, "rpiCameraAfMode", 1, "auto", "manual", "continuous", "single")
+				case 9:
+					opt(p, "rpiCameraAfRange", 1, "normal", "macro", "full", "far")
+				case 10:
+					opt(p, "rpiCameraAfSpeed", 1, "normal", "fast", "slow")
+				case 11:
+					opt(p, "rpiCameraProfile", 1, "baseline", "main", "high", "extended")
+				case 12:
+					opt(p, "rpiCameraLevel", 1, "'4.0'", "'4.1'", "'4.2'", "'5.0'")
+				case 13:
+					opt(p, "rpiCameraHardwareH264Profile", 1, "baseline", "main", "high", "auto")
+				case 14:
+					opt(p, "rpiCameraHardwareH264Level", 1, "'4.0'", "'4.1'", "'4.2'", "'3.1'")
+				case 15:
+					opt(p, "rpiCameraSoftwareH264Profile", 1, "baseline", "main", "high", "constrained")
+				case 16:
+					opt(p, "rpiCameraSoftwareH264Level", 1, "'4.0'", "'4.1'", "'4.2'", "'4'")
+				case 17:
+					opt(p, "rpiCameraH264Profile", 1, "auto", "baseline", "main", "high", "high10")
+				case 18:
+					opt(p, "rpiCameraH264Level", 1, "'4.0'", "'4.1'", "'4.2'", "'4.3'")
+				case 19:
+					opt(p, "rpiCameraJPEGQuality", 1, "55", "0")
+				default:
+					opt(p, "rpiCameraMJPEGQuality", 1, "70")
+				}
+			}
 		case 5, 6:
 			p["source"] = strings.TrimPrefix(vPick(r, vGenSources[3:12])[0], "source: ")
 		case 7:
@@ -397,8 +700,8 @@ func vC10CmpGen(r *vRand) *vGenConf {
 		}
 		opt(p, "sourceOnDemand", 3, "yes", "no")
 		opt(p, "sourceRedirect", 20, "/stray")
-		opt(p, "srtPublishPassphrase", 14, "abc", "abcdefghij12", strings.Repeat("x", 80), strings.Repeat("y", 79))
-		opt(p, "srtReadPassphrase", 8, "abc", "abcdefghij", strings.Repeat("x", 80))
+		opt(p, "srtPublishPassphrase", 14, "abcdefghij12", "abc", strings.Repeat("x", 80), strings.Repeat("y", 79))
+		opt(p, "srtReadPassphrase", 8, "abcdefghij", "abc", strings.Repeat("x", 80))
 		opt(p, "recordPath", 4, "'./rec/%path/%Y-%m-%d_%H-%M-%S-%f'", "'/r/%path/%s'", "'/r/%path/%s-%f'", "'/r/%Y-%m-%d_%H-%M-%S-%f'",
 			"'/r/%path/%Y-%m-%d'", "'/r/%path/%Y-%m-%d_%H-%M-%S'", "''", "'%pat/%s'")
 		opt(p, "recordSegmentDuration", 5, "1h", "25h", "24h", "1s", "2d")
@@ -407,9 +710,50 @@ func vC10CmpGen(r *vRand) *vGenConf {
 		opt(p, "runOnDemand", 8, "echo x")
 		opt(p, "runOnUnDemand", 12, "echo x")
 		opt(p, "useAbsoluteTimestamp", 10, "yes")
+		// deprecated parameters and the checks of a single branch of the source switch
+		opt(p, "disablePublisherOverride", 14, "yes", "no")
+		opt(p, "sourceProtocol", 14, "tcp", "udp", "multicast", "automatic")
+		opt(p, "sourceAnyPortEnable", 20, "yes", "no")
+		opt(p, "rtspUDPSourcePortRange", 12, "[10000, 20000]", "[10000]", "[]", "[1, 2, 3]")
+		opt(p, "rtpSDP", 8, "'v=0'", "''")
+		opt(p, "runOnReady", 14, "echo r")
+		opt(p, "runOnReadyRestart", 20, "yes", "no")
+		opt(p, "runOnNotReady", 20, "echo n")
+		opt(p, "fallback", 20, "/other", "'rtsp://fb.example/x'", "'::'", "/../x")
+		opt(p, "forward", 20, "[{dest: 'rtsp://f.example/x'}]", "[{dest: ''}]", "[{dest: 'ftp://f.example'}]")
+		opt(p, "publishUser", 14, "pu", "''", "any", "'sha256:j1tsRqDEw9xvq/D7/9tMx6Jh/jMhk3UfjwIB2f1zgMo='")
+		opt(p, "publishPass", 14, "pp", "''", "'sha256:j1tsRqDEw9xvq/D7/9tMx6Jh/jMhk3UfjwIB2f1zgMo='")
+		opt(p, "readUser", 14, "ru", "''")
+		opt(p, "readPass", 14, "rp", "''")
+		opt(p, "publishIPs", 24, "[]", "['192.0.2.0/24']")
+		opt(p, "readIPs", 24, "[]", "['198.51.100.7/32', '::1/128']")
 		if r.Chance(1, 8) {
 			p["alwaysAvailable"] = "yes"
 			opt(p, "alwaysAvailableTracks", 2, "[{codec: H264}]", "[]")
+			opt(p, "alwaysAvailableFile", 4, "/nonexistent/file.mp4", "''")
+		}
+		// three times out of four, remove the combinations that Path.validate rejects whatever the values are, so that
+		// the value checks behind them are reached
+		if r.Chance(3, 4) {
+			src, hasSrc := p["source"]
+			publisher := !hasSrc || src == "publisher"
+			if publisher {
+				delete(p, "sourceOnDemand")
+			} else {
+				delete(p, "runOnDemand")
+				delete(p, "runOnUnDemand")
+				delete(p, "srtPublishPassphrase")
+				if src != "redirect" && (name == "all" || name == "all_others" || strings.HasPrefix(name, "~")) {
+					p["sourceOnDemand"] = "yes"
+				}
+			}
+			if src != "redirect" {
+				delete(p, "sourceRedirect")
+			}
+			if name == "all" || name == "all_others" || strings.HasPrefix(name, "~") {
+				delete(p, "runOnInit")
+				delete(p, "alwaysAvailable")
+			}
 		}
 		g.Paths[name] = p
 	}
@@ -440,21 +784,23 @@ func vC10CmpCase(out *vOut, dir string, g *vGenConf) {
 		}
 		setAllNilSlicesToEmptyRecursive(reflect.ValueOf(c))
 		pre := *c // globals before Validate overwrites them
+		prePD := c.PathDefaults
 		rbc := c.ReadBufferCount
 		verr := c.Validate(nil)
 		desc["validate_error"] = fmt.Sprint(verr)
-		paths := c.Paths
-		if paths == nil { // Validate stopped before merging: merge here (the model fails on the same global check)
-			paths = map[string]*Path{}
-			for name, o := range c.OptionalPaths {
-				if o == nil {
-					o = &OptionalPath{Values: newOptionalPathValues()}
-				}
-				paths[name] = newPath(&c.PathDefaults, o)
+		// the merged paths as Path.validate receives them: Validate only copies the deprecated record parameters into
+		// PathDefaults before merging, and never writes through the optional paths, so merging again gives that state
+		// (when Validate stopped before the merge, the model fails on the same global check)
+		paths := map[string]*Path{}
+		for name, o := range c.OptionalPaths {
+			if o == nil {
+				o = &OptionalPath{Values: newOptionalPathValues()}
 			}
+			paths[name] = newPath(&c.PathDefaults, o)
 		}
 		pre.ReadBufferCount = rbc
 		pre.OptionalPaths = c.OptionalPaths
+		pre.PathDefaults = prePD
 		input = vC10ConfTerm(&pre, paths, true)
 	}()
 	if input == "" { // the file did not even parse: nothing for the model; keep the outcome
@@ -609,7 +955,7 @@ func TestVerifC10(t *testing.T) {
 	// 5. generated streams
 	for out.n < n {
 		switch k := r.Intn(20); {
-		case k < 7: // only modelled constraints exercised: compared with the model's accept/reject
+		case k < 8: // only modelled constraints exercised: compared with the model's accept/reject
 			vC10CmpCase(out, dir, vC10CmpGen(r))
 		case k < 10: // mutated copies of the shipped file
 			loadCase("yaml-mutated", vC10MutateYAML(r, base), nil, nil)
